@@ -16,7 +16,7 @@ import (
 
 type C17Op struct {
 	Op    string `json:"op"`              // write | reset | reuse | scribble
-	Class string `json:"class,omitempty"` // pay | afpay | afonly | afbad
+	Class string `json:"class,omitempty"` // pay | afpay | afonly | afbad | afc0
 	PUSI  bool   `json:"pusi,omitempty"`
 	AFLen int    `json:"af_len,omitempty"`
 	Ser   int    `json:"ser,omitempty"`
@@ -59,7 +59,7 @@ func (c17) Info() core.Info {
 			"lists and byte slices returned earlier must keep their contents whatever is done to the accumulator afterwards (independent copies)",
 			"only slice-level independence of Packets() is demanded",
 		},
-		RequiredProbes: []string{"pusi_without_payload", "held_results_checked", "second_pusi_restart", "refused_before_start", "write_after_done", "pred_err", "nopayload_packet", "reset_mid", "buffer_reused", "scribbled", "done_at_first_packet", "empty_payload_packet", "af_overrun_packet"},
+		RequiredProbes: []string{"reserved_afc_packet", "pusi_without_payload", "held_results_checked", "second_pusi_restart", "refused_before_start", "write_after_done", "pred_err", "nopayload_packet", "reset_mid", "buffer_reused", "scribbled", "done_at_first_packet", "empty_payload_packet", "af_overrun_packet"},
 	}
 }
 
@@ -108,6 +108,11 @@ func c17Packet(op C17Op) (packet.Packet, []byte, bool) {
 			p[k] = 0xFF
 		}
 		return p, nil, false
+	case "afc0":
+		// reserved adaptation_field_control 00: neither adaptation field nor payload
+		p[3] = cc
+		fill(4)
+		return p, nil, false
 	case "afbad":
 		l := op.AFLen
 		if l < 184 {
@@ -137,7 +142,9 @@ func c17GenOp(r *core.Rand, ser int, hasPayloadPUSI bool) C17Op {
 		return C17Op{Op: "scribble"}
 	}
 	op := C17Op{Op: "write", Ser: ser}
-	switch r.Intn(10) {
+	switch r.Intn(11) {
+	case 10:
+		op.Class = "afc0"
 	case 0:
 		op.Class = "afonly"
 	case 1:
@@ -453,6 +460,9 @@ func (c17) Exec(script interface{}, c *core.Ctx) {
 					}
 					if op.Class == "afbad" {
 						c.Probe("af_overrun_packet")
+					}
+					if op.Class == "afc0" {
+						c.Probe("reserved_afc_packet")
 					}
 				}
 			}
